@@ -1274,6 +1274,65 @@ def check_C14(run):
                                'selectors, end to end over a loopback transport; distinct = distinct call sequences')
 
 
+# ===========================================================================
+# C19 threads
+
+
+def key_tl(ev, why, cmd=None):
+    if ev.get("e") != "TL":
+        return abnormal_key('C19', ev, why, cmd)
+    return 'C19|TL|%s|%s' % (ev.get("mode"), ','.join(why)), '%s run of %s threads violates: %s (command %s)' % (
+        ev.get("mode"), ev.get("threads"), ', '.join(why), ev.get("idx"))
+
+
+def random_tl_program(rng, n):
+    prog = []
+    for _ in range(n):
+        op = rng.choice(["init", "init", "set", "clear", "codec", "codec"])
+        prog.append({"op": op, "slot": rng.randrange(3), "val": rng.randrange(1, 1000)})
+    return prog
+
+
+def check_C19(run):
+    thorough = run.tier == 'thorough'
+    rng = random.Random(run.seed)
+    # (M) all interleavings of 2 (quick) / 3 (thorough) threads; emitted schedules are replayed in lock step
+    scheds2 = vf.tlc_generate(run, 'MC_Threads', {"NThreads": 2, "Emitting": True},
+                              extra_cfg='INVARIANT ScheduleIndependent\nPROPERTY Isolation', timeout=900)
+    scheds3 = []
+    if thorough:
+        scheds3 = vf.tlc_generate(run, 'MC_Threads', {"NThreads": 3, "Emitting": True},
+                                  extra_cfg='INVARIANT ScheduleIndependent\nPROPERTY Isolation', timeout=1800, workers=1)
+        rng.shuffle(scheds3)
+        scheds3 = scheds3[:4000]
+    else:
+        vf.tlc_generate(run, 'MC_Threads', {"NThreads": 3, "Emitting": False},
+                        extra_cfg='INVARIANT ScheduleIndependent\nPROPERTY Isolation', timeout=900, workers=8, label='mc3')
+    rng.shuffle(scheds2)
+    cmds = []
+    for sc in scheds2[:(3000 if thorough else 600)]:
+        cmds.append({"c": "tl", "mode": "lockstep", "threads": 2, "schedule": sc})
+    for sc in scheds3:
+        cmds.append({"c": "tl", "mode": "lockstep", "threads": 3, "schedule": sc})
+    # free-running threads: ThreadLocal operations on shared slot types and codec round trips on own objects
+    for _ in range(150 if thorough else 40):
+        n = rng.choice([4, 8, 16])
+        cmds.append({"c": "tl", "mode": "free", "threads": n,
+                     "programs": [random_tl_program(rng, rng.choice([30, 80] if thorough else [20, 40])) for _ in range(n)]})
+    cmds = with_resets(cmds, 60)
+    run.samples = [c for c in cmds if c.get("mode") == "lockstep"][:1] + [c for c in cmds if c.get("mode") == "free"][:1]
+    run.distinct = set(vf.digest(c) for c in cmds)
+    exe, types_path = vf.get_exe(run, 'tsan')
+    trace = vf.exec_commands(run, exe, cmds, 'c19', per_cmd_timeout=60,
+                             env={"TSAN_OPTIONS": "halt_on_error=1 exitcode=66 report_signal_unsafe=0"})
+    rejected = vf.tlc_validate(run, 'TrThreads', 'TrCodec.cfg', trace, {"PROP": "C19", "TYPES": types_path})
+    add_rejections(run, rejected, key_tl, index_cmds(cmds))
+    return vf.finish(run, rule='TLC-enumerated interleavings (MC_Threads: 2 threads exhaustively, 3 threads in the thorough tier) of '
+                               'ThreadLocal Initialize/Get/Set/Clear programs replayed by real threads in lock step, plus 4-16 '
+                               'free-running threads doing ThreadLocal operations on shared slot types and serializer round trips '
+                               'on their own objects; ThreadSanitizer build: a report is a Race event; distinct = distinct commands')
+
+
 def replay(run, path):
     with open(path) as f:
         rp = json.load(f)
